@@ -16,18 +16,18 @@ MISC = "wntr/metrics/misc.py"
 ELEM = "wntr/network/elements.py"
 
 EXPLANATION = (
-    "Formula extraction (AST -> sympy by path-enumerating symbolic execution; locals, hoisted temporaries and inlined helpers are resolved to the "
-    "canonical text of what they hold, comprehensions are entered like loops, pandas selections are kept as uninterpreted leaves, reference "
-    "formulas are written in the same syntax and passed through the same extractor) of expected_demand, average_expected_demand, _lcm, "
-    "water_service_availability, todini_index, modified_resilience_index, tank_capacity, population, pump_power/energy/cost and the "
-    "maximum-pump-power formula; _gcd is evaluated concretely on a grid of integer pairs against math.gcd; CFG rule 'a loop whose body always "
-    "leaves on the first iteration' over all of wntr/metrics; the demand_timeseries_list.at call of expected_demand is compared, per path, with "
-    "the simulator's clock convention (loop time + pattern_start), the demand multiplier, the category and the time grid it iterates; the "
-    "price chosen by pump_cost is decided as a truth table over the None-ness of (own price, own pattern, global pattern) from the path "
-    "conditions; every arithmetic use of the percentage option global_efficiency (also through a temporary) divides it by 100; the default "
-    "lookup tables are evaluated concretely and compared with the RST tables of the same docstrings; the totals of annual_network_cost / "
-    "annual_ghg_emissions are decomposed into table look-ups (table, looked-up value, multiplier, loop) each of which must select "
-    "table.iloc[argmin |table.index - value|]. Decides the scalar formulas and conventions, not the pandas plumbing.")
+    "Mostly T2: formula extraction (AST -> sympy by path-enumerating symbolic execution; locals and inlined helpers resolved to canonical text, comprehensions "
+    "entered like loops, pandas selections kept as uninterpreted leaves whose texts contain the functions' parameter names, reference formulas passed through "
+    "the same extractor). R-C20-1: (T1) CFG rule over all of wntr/metrics -- no loop whose body always leaves on the first iteration; (T3) _gcd evaluated on a "
+    "grid of about 900 integer pairs against math.gcd; (T2, grid fallback) _lcm = x*y/gcd. R-C20-2: the demand_timeseries_list.at call of expected_demand is "
+    "compared per path with the simulator's clock (grid time + pattern_start), multiplier, category, time grid and defaults; average_expected_demand averages "
+    "over one lcm period; other call sites in wntr are a TEXT match ('pattern_start' in the argument). R-C20-3 (T1, AST pattern on the immediate parent BinOp "
+    "only, nothing evaluated): each arithmetic use of the percentage option global_efficiency, also through a single-assignment temporary, is `/ 100` or "
+    "`* 0.01`. R-C20-4: formulas of pump_power / energy / cost (price as a truth table over the None-ness of own price, own pattern, global pattern), "
+    "population, water_service_availability, todini_index, modified_resilience_index, tank_capacity, maximum pump power. R-C20-5: totals of annual_network_cost "
+    "/ annual_ghg_emissions decomposed into look-ups table.iloc[argmin |table.index - value|] (T2); default tables evaluated concretely and compared with the "
+    "RST tables of the docstrings (T3, exhaustive over the tables). R-C20-6: expected_demand iterates no time beyond end_time; empty patterns are left out of the "
+    "common period. Decides the scalar formulas and conventions, not the pandas plumbing.")
 RULE_TEXT = "one instance = one formula, one loop, one call site, one table, one look-up"
 ASSUMPTIONS = ["pandas arithmetic is elementwise and aligns on labels; .sum(axis=1) sums over columns",
                "registry iterators: wn.tanks() yields the (name, wn.get_node(name)) pairs of wn.tank_name_list in the same order; wn.pipes()/wn.tanks()/wn.valves() "
@@ -691,6 +691,8 @@ def run(repo, chk):
     chk.expect(okmean, "R-C20-2", "average_expected_demand is the mean over time", loc(aed))
 
     # ---------------------------------------------------------------- R-C20-3 efficiency convention
+    # AST pattern match, nothing evaluated: only the immediate parent BinOp of each load of global_efficiency (or of a single-assignment temporary holding
+    # it) is inspected, for a literal 100 / 100.0 / 0.01; a use that is not a direct BinOp operand is skipped
     nuse = 0
     for rel in repo.modules("wntr/metrics"):
         t = repo.tree(rel)
